@@ -393,6 +393,80 @@ def ambiguity(model: Model, run: Run, rule: str, only_module, floor_sites: int, 
                              [f"pattern: {pat[:200]!r}", f"family: {fam}"]))
 
 
+def find_restarts_ahead(body, idx: str):
+    """`while idx != -1:` driven by `idx = text.find(sub, start)`: on every path to the back edge the search must restart strictly
+    after the previous hit - start is `idx + k` (k >= 1) or a name given such a value on that very path.  A restart at a position
+    that did not move past the hit finds the same hit again: the loop never ends."""
+    def ahead_expr(e: ast.expr, ahead) -> bool:
+        if isinstance(e, ast.Name):
+            return e.id in ahead
+        if isinstance(e, ast.BinOp) and isinstance(e.op, ast.Add):
+            for a, b in ((e.left, e.right), (e.right, e.left)):
+                if isinstance(b, ast.Constant) and type(b.value) is int and b.value >= 1 and ((isinstance(a, ast.Name) and a.id == idx) or ahead_expr(a, ahead)):
+                    return True
+                if isinstance(a, ast.Name) and a.id == idx and isinstance(b, ast.Call) and norm(b.func) == "len" and b.args and isinstance(b.args[0], ast.Constant) and b.args[0].value:
+                    return True             # idx + len(<non-empty literal>)
+        return False
+
+    def run_block(stmts, ahead, done):
+        """-> list of (ahead, done) states that fall off the end of stmts; a path that reaches the back edge undone is an error"""
+        states = [(set(ahead), done)]
+        for st in stmts:
+            nxt = []
+            for ah, dn in states:
+                if isinstance(st, (ast.Break, ast.Return, ast.Raise)):
+                    continue
+                if isinstance(st, ast.Continue):
+                    if not dn:
+                        raise _NoProgress(st.lineno)
+                    continue
+                if isinstance(st, ast.If):
+                    nxt += run_block(st.body, ah, dn) + run_block(st.orelse, ah, dn)
+                    continue
+                if isinstance(st, (ast.While, ast.For, ast.Try, ast.With, ast.Match)):
+                    if any(isinstance(x, ast.Name) and x.id == idx and isinstance(x.ctx, ast.Store) for x in ast.walk(st)) or \
+                            any(isinstance(x, (ast.Continue,)) for x in ast.walk(st)):
+                        raise AnalysisError(f"scanning loop over `{idx}`: the search position is changed inside a nested block (line {st.lineno})")
+                    nxt.append((ah, dn))
+                    continue
+                ah = set(ah)
+                if isinstance(st, (ast.Assign, ast.AnnAssign, ast.AugAssign)):
+                    tg = st.targets[0] if isinstance(st, ast.Assign) and len(st.targets) == 1 else getattr(st, "target", None)
+                    val = getattr(st, "value", None)
+                    if isinstance(tg, ast.Name):
+                        if tg.id == idx:
+                            if isinstance(st, ast.AugAssign):
+                                good = isinstance(st.op, ast.Add) and isinstance(val, ast.Constant) and type(val.value) is int and val.value >= 1
+                            else:
+                                good = isinstance(val, ast.Call) and isinstance(val.func, ast.Attribute) and val.func.attr in ("find", "index") and len(val.args) >= 2 \
+                                    and ahead_expr(val.args[1], ah)
+                            if not good and not dn:
+                                raise _NoProgress(st.lineno)
+                            dn = True
+                        elif isinstance(st, ast.AugAssign):
+                            if not (tg.id in ah and isinstance(st.op, ast.Add) and isinstance(val, ast.Constant) and type(val.value) is int and val.value >= 0):
+                                ah.discard(tg.id)
+                        elif val is not None and not dn and ahead_expr(val, ah):
+                            ah.add(tg.id)
+                        else:
+                            ah.discard(tg.id)
+                    elif tg is not None and any(isinstance(x, ast.Name) and isinstance(x.ctx, ast.Store) and x.id == idx for x in ast.walk(tg)):
+                        raise AnalysisError(f"scanning loop over `{idx}`: unpacking assignment to the search position (line {st.lineno})")
+                nxt.append((ah, dn))
+            states = nxt
+        return states
+
+    class _NoProgress(Exception):
+        pass
+    try:
+        for _ah, dn in run_block(body, set(), False):
+            if not dn:
+                return False, f"`{idx}` is searched for again from a position that has not moved past the previous hit on some path"
+    except _NoProgress as e:
+        return False, f"`{idx}` is searched for again from a position that has not moved past the previous hit (line {e.args[0]})"
+    return True, ""
+
+
 def progress_rule(model: Model, run: Run) -> None:
     """Every `while` loop in the filter string parser and in receive compares a counter with a length and
     advances the counter on every path to the back edge, or iterates a reader that is consumed by each
@@ -413,6 +487,18 @@ def progress_rule(model: Model, run: Run) -> None:
             targets.insert(len(targets) - 1, fq)
             n_rd += len(loops)
     run.floor("reader loops in the decoders", n_rd, 5)
+    # `while idx != -1:` search loops anywhere else in the text parsers (schema, filter): judged by the restart-ahead rule only
+    def is_find_loop(x: ast.AST) -> bool:
+        return isinstance(x, ast.While) and isinstance(x.test, ast.Compare) and len(x.test.ops) == 1 and isinstance(x.test.left, ast.Name) and \
+            ((isinstance(x.test.ops[0], ast.NotEq) and norm(x.test.comparators[0]) == "-1") or (isinstance(x.test.ops[0], ast.GtE) and norm(x.test.comparators[0]) == "0") or
+             (isinstance(x.test.ops[0], ast.Gt) and norm(x.test.comparators[0]) == "-1")) and \
+            any(isinstance(y, ast.Call) and isinstance(y.func, ast.Attribute) and y.func.attr in ("find", "index", "rfind") for y in ast.walk(x))
+    find_only: set = set()
+    for fq, f2 in sorted(model.functions.items()):
+        if f2.module in ("sansldap.schema", "sansldap._filter") and not isinstance(f2.node, ast.Lambda) and fq not in targets and \
+                any(is_find_loop(x) for x in walk_no_nested(f2.node)):
+            targets.append(fq)
+            find_only.add(fq)
     n = 0
     for q in targets:
         fi = model.functions.get(q)
@@ -429,6 +515,8 @@ def progress_rule(model: Model, run: Run) -> None:
             run.note(f"{q}: generator, judged at its expansions")
             continue
         for w in [x for x in walk_no_nested(fi.node) if isinstance(x, ast.While)]:
+            if q in find_only and not is_find_loop(w):
+                continue
             n += 1
             t = w.test
             ok, why = False, "loop condition shape not recognised"
@@ -448,7 +536,14 @@ def progress_rule(model: Model, run: Run) -> None:
                             and isinstance(b.test.ops[0], (ast.GtE, ast.Eq)):
                         c = b.test.left.id
                         break
-            if c is not None:
+            fv = None
+            if c is None and isinstance(t, ast.Compare) and len(t.ops) == 1 and isinstance(t.left, ast.Name) and \
+                    ((isinstance(t.ops[0], ast.NotEq) and norm(t.comparators[0]) == "-1") or (isinstance(t.ops[0], ast.GtE) and norm(t.comparators[0]) == "0") or
+                     (isinstance(t.ops[0], ast.Gt) and norm(t.comparators[0]) == "-1")):
+                fv = t.left.id              # while idx != -1: ... idx = text.find(sub, start)
+            if fv is not None:
+                ok, why = find_restarts_ahead(w.body, fv)
+            elif c is not None:
                 ok, why = advances_on_all_paths(w.body, c)
             elif isinstance(t, ast.Name):
                 # `while reader:` - each iteration must call a read on it (or break/raise)
